@@ -465,16 +465,7 @@ func (vfs *OrefaFS) Mkdir(name string, perm fs.FileMode) error {
 	}
 
 	if !parentOk {
-		for !parentOk {
-			dirName, _ = avfs.SplitAbs(vfs, dirName)
-			parent, parentOk = vfs.nodes[dirName]
-		}
-
-		if parent.mode.IsDir() {
-			return &fs.PathError{Op: op, Path: name, Err: vfs.err.NoSuchDir}
-		}
-
-		return &fs.PathError{Op: op, Path: name, Err: vfs.err.NotADirectory}
+		return &fs.PathError{Op: op, Path: name, Err: vfs.errNotFoundNoLock(absPath, vfs.err.NoSuchDir)}
 	}
 
 	if !parent.mode.IsDir() {
@@ -526,6 +517,11 @@ func (vfs *OrefaFS) MkdirAll(path string, perm fs.FileMode) error {
 			}
 
 			break
+		}
+
+		// The volume of the path does not exist.
+		if len(dirName) <= avfs.VolumeNameLen(vfs, dirName) {
+			return &fs.PathError{Op: op, Path: path, Err: vfs.err.NoSuchDir}
 		}
 
 		ds = append(ds, dirName)
